@@ -3,7 +3,7 @@
    No Extract Constant, no further Extract Inductive. *)
 From Coq Require Import ZArith List.
 From Coq Require Extraction ExtrOcamlBasic.
-From BM Require Import Model.Layout Model.View Model.Iter Model.Life.
+From BM Require Import Model.Layout Model.View Model.Iter Model.Assign Model.Life Model.LifeView.
 Extraction Language OCaml.
 Extraction "modellife.ml"
   step run_op run_life st0 reset_counts unwind
@@ -11,4 +11,4 @@ Extraction "modellife.ml"
   run_values vstep
   numel collapse bx_eq norm_bx bnumel arr_bx arr_eqb zeros alloc_eq socc same_shape_rows nel
   default_alloc std_alloc pat NP NSLOTS
-  root_view run_ops apply_op er_at l_sizes l_extensions l_num_elements.
+  root_view run_ops apply_op er_at l_sizes l_extensions l_num_elements view_vsrc.
